@@ -133,6 +133,25 @@ def rodded(S, cfg):
     # pin power to subchannels
     S.eq('equivariant.pin_power_partition', rr2._calc_int_sc_power(q2['pins'], q2['cool']),
          _apply(rr1._calc_int_sc_power(q['pins'], q['cool']), p_cool), block=block)
+    # pin temperatures: what the pin model is handed for pin g(p) of the transformed problem is what it is handed for pin p
+    # of the original one (coolant temperature around the pin, film coefficient, power); the pin model itself treats
+    # every pin alike (its contract: C13)
+    if cfg.get('pins', True):
+        class _Rec:
+            htc_params = [0.023, 0.8, 0.8, 7.0]
+
+            def calculate_temperatures(self, qp, Tc, htc, dzz):
+                self.seen = (qp, Tc, htc)
+                return np.zeros((len(qp), 6))
+        for rr, qq in ((rr1, q['pins']), (rr2, q2['pins'])):
+            rr.pin_model = _Rec()
+            rr.pin_temps = np.array(np.zeros((rr.n_pin, 9)), dtype=object if S.mode == 'sym' else float)
+            rr.coolant_int_params['Re'] = rr1.coolant_int_params.get('Re', 5e4)
+            rr.corr['pin_nu'] = lambda cool, Re, par: 7.0
+            rr.calculate_pin_temperatures(dz, qq)
+        S.eq('equivariant.pin_coolant_temperature', rr2.pin_model.seen[1], _apply(rr1.pin_model.seen[1], p_pin), block=block)
+        S.eq('equivariant.pin_power', rr2.pin_model.seen[0], _apply(rr1.pin_model.seen[0], p_pin), block=block)
+        S.eq('equivariant.pin_ids_and_heights', rr2.pin_temps[:, :3], rr1.pin_temps[:, :3])
     # canary: without reversing the wire the mirrored problem is NOT the mirror image (and a rotation is not the identity)
     i0 = [i for i in range(nsc) if p_cool[i] != i][0]
     S.eq('canary.equivariant_is_invariant', rr2.temp['coolant_int'][i0], rr1.temp['coolant_int'][i0], block=block,
